@@ -34,7 +34,11 @@ impl BytesMut {
     #[verifier::external_body]
     pub fn truncate(&mut self, n: usize) ensures final(self)@ == (if n <= old(self)@.len() { old(self)@.take(n as int) } else { old(self)@ }) { self.v.truncate(n) }
     #[verifier::external_body]
-    pub fn reserve(&mut self, n: usize) ensures final(self)@ == old(self)@ { self.v.reserve(n) }
+    pub uninterp spec fn spec_capacity(&self) -> usize;
+    #[verifier::external_body]
+    pub fn capacity(&self) -> (r: usize) ensures r == self.spec_capacity(), r >= self@.len() { self.v.capacity() }
+    #[verifier::external_body]
+    pub fn reserve(&mut self, n: usize) ensures final(self)@ == old(self)@, final(self).spec_capacity() >= old(self)@.len() + n, final(self).spec_capacity() >= old(self).spec_capacity() { self.v.reserve(n) }
     #[verifier::external_body]
     pub fn extend_from_slice(&mut self, s: &[u8]) ensures final(self)@ == old(self)@ + s@ { self.v.extend_from_slice(s) }
     #[verifier::external_body]
